@@ -75,9 +75,9 @@ def loops_of(fn_node):
                 continue
             if isinstance(c, (ast.For, ast.While, ast.ListComp)):
                 out.append(c)  # a list comprehension is a loop (over its single generator) that appends
-            if (isinstance(c, ast.Call) and isinstance(c.func, ast.Name) and c.func.id == "sum" and len(c.args) == 1
+            if (isinstance(c, ast.Call) and isinstance(c.func, ast.Name) and c.func.id in ("sum", "deque", "list") and len(c.args) == 1
                     and isinstance(c.args[0], ast.GeneratorExp)):
-                out.append(c.args[0])  # sum(<elt> for x in xs) is a loop that accumulates into `_sum<k>`
+                out.append(c.args[0])  # sum(<elt> for x in xs) accumulates into `_sum<k>`; deque / list(<elt> for ..) builds `_comp<k>`
             walk(c)
 
     walk(fn_node)
@@ -496,6 +496,9 @@ class Executor:
             if (isinstance(node, ast.Call) and isinstance(node.func, ast.Name) and node.func.id == "set"
                     and not node.args and isinstance(hint, TSet)):
                 return mk_set(hint, z3.K(sort_of(hint.k), z3.BoolVal(False)), z3.IntVal(0))
+        if hint is not None and isinstance(hint, TDict) and isinstance(node, ast.DictComp):
+            from .builtins import do_dictcomp
+            return do_dictcomp(self, ev, node, hint=hint)
         if (hint is not None and isinstance(hint, TTuple) and not isinstance(hint, TRec) and isinstance(node, ast.Tuple)
                 and len(node.elts) == len(hint.items)):
             # a tuple literal whose items may be empty literals: (capacity, []) with the declared item types
